@@ -192,7 +192,7 @@ def run(ctx):
                      rep_mod.compact_grid_object_representation_convert, srep_mod.AgentStateRepresentation.convert,
                      srep_mod.CompactGridObjectStateRepresentation.__init__,
                      orep_mod.CompactGridObjectObservationRepresentation.__init__, gv_gym.outer_space_to_gym_space]):
-        cases = repgen.space_cases(ctx, 60)
+        cases = repgen.space_cases(ctx, 120)
         for i, (types, colors, shape, view) in enumerate(cases):
             if not ctx.mine(i):
                 continue
